@@ -799,3 +799,46 @@ def var_truth_tracker(fn, vid):
                 state = want
         return state
     return on_elem, on_edge
+
+
+# ---------------------------------------------------------------------------------------------
+# structural expression keys and symbolic bounds (SYM + c): used by the guard-agreement / capacity rules
+# ---------------------------------------------------------------------------------------------
+def expr_key(fn, s):
+    """structural key of an expression, looking through reads and integral casts"""
+    s = fn.strip(s)
+    n = fn.n(s)
+    k = n.get('k')
+    if k == 'var':
+        return ('g', n['glob']) if 'glob' in n else ('v', n['v'])
+    if k == 'enum':
+        return ('g', n.get('q'))
+    if k == 'lit' and n.get('cv') is not None:
+        return ('c', int(n['cv']))
+    if k == 'binop':
+        return ('b', n['op'], expr_key(fn, n['l']), expr_key(fn, n['r']))
+    if k == 'member':
+        return ('m', n['n'], expr_key(fn, n['base']) if n.get('base', -1) >= 0 else None)
+    return ('?', s)
+
+
+def sym_bound(fn, s):
+    """(symbol key or None, integer offset) for `SYM`, `SYM - c`, `SYM + c` or a constant"""
+    c = fn.cv(s)
+    if c is not None:          # compile-time constant: compare numerically
+        return None, int(c)
+    s = fn.strip(s)
+    n = fn.n(s)
+    if n.get('k') == 'binop' and n['op'] in ('+', '-'):
+        c = fn.cv(n['r'])
+        if c is not None and fn.cv(n['l']) is None:
+            sym, off = sym_bound(fn, n['l'])
+            return sym, off + (int(c) if n['op'] == '+' else -int(c))
+    if n.get('k') in ('var', 'enum'):
+        return expr_key(fn, s), 0
+    c = fn.cv(s)
+    if c is not None:
+        return None, int(c)
+    return expr_key(fn, s), 0
+
+
